@@ -549,7 +549,15 @@ def part_orbit(ck: Check, fx: Fx, rec: CacheRecorder, dictmode: str, rnd: random
     probes = [h for h in rp.printed() if isinstance(h, list)]
     if not probes:
         raise MachineryError("MCOrbitProbe emitted no histories")
-    ck.part("orbit_model", probe_histories=len(probes))
+    # the save/load family behind the deep prefix: two more writers, a (re-)load, every read
+    cfgpd = make_cfg(f"OrbitProbe.asis.deep{ck.tier}.cfg", flags, wd, "OrbitProbe.livedeep.cfg")
+    rpd = tlc(OBJ / "probe" / "MCOrbitProbe.tla", cfgpd, timeout=1500, workers=1)
+    ck.model(f"OrbitProbe.live.deep{ck.tier}", rpd)
+    dprobes = [h for h in rpd.printed() if isinstance(h, list)]
+    if not dprobes:
+        raise MachineryError("MCOrbitProbe (deep prefix) emitted no histories")
+    ck.part("orbit_model", probe_histories=len(probes), deep_probe_histories=len(dprobes))
+    probes = probes + dprobes
     hists = rnd.sample(hists, min(len(hists), 1000 if ck.quick else 8000))
     deep = rnd.sample(deep, min(len(deep), 300 if ck.quick else 2000))
     jobs = [("lyapunov", h) for h in hists] + [("lyapunov", h) for h in deep] + [("lyapunov", h) for h in walks] \
